@@ -109,7 +109,13 @@ fn dump_str(r: &Range<String>) -> String {
 }
 
 fn err_class<E: std::fmt::Debug>(e: &E) -> String {
-    let s = format!("{e:?}");
+    let mut s = format!("{e:?}");
+    // the `Sheets` wrapper wraps the reader's error: calamine::Error::Xlsx(XlsxError::…)
+    for p in ["Xls(", "Xlsx(", "Xlsb(", "Ods("] {
+        if s.starts_with(p) {
+            s = s[p.len()..].to_string();
+        }
+    }
     let end = s.find(|c: char| !(c.is_alphanumeric() || c == '_')).unwrap_or(s.len());
     format!("err:{}", &s[..end])
 }
@@ -121,9 +127,13 @@ fn hdr(h: Option<u32>) -> HeaderRow {
     }
 }
 
-/// perform one public call and canonicalise what it returned
-fn perform(w: &mut AnyBook, op: &Op) -> String {
-    let r = guarded(|| match op {
+/// the calls of the `Reader` trait, on any implementor (the `Sheets` wrapper or a format's own reader)
+fn common<R>(w: &mut R, op: &Op) -> Option<String>
+where
+    R: Reader<Cursor<Vec<u8>>>,
+    R::Error: std::fmt::Debug,
+{
+    Some(match op {
         Op::H(h) => {
             w.with_header_row(hdr(*h));
             "unit".to_string()
@@ -131,17 +141,6 @@ fn perform(w: &mut AnyBook, op: &Op) -> String {
         Op::R(n) => match w.worksheet_range(n) {
             Ok(r) => dump_data(&r),
             Err(e) => err_class(&e),
-        },
-        Op::RR(n) => match w {
-            Sheets::Xlsx(x) => match x.worksheet_range_ref(n) {
-                Ok(r) => dump_data(&to_owned(&r)),
-                Err(e) => err_class(&e),
-            },
-            Sheets::Xlsb(x) => match x.worksheet_range_ref(n) {
-                Ok(r) => dump_data(&to_owned(&r)),
-                Err(e) => err_class(&e),
-            },
-            _ => "unsupported".into(),
         },
         Op::RA(i) => match w.worksheet_range_at(*i) {
             None => "none".into(),
@@ -157,48 +156,6 @@ fn perform(w: &mut AnyBook, op: &Op) -> String {
             Ok(r) => dump_str(&r),
             Err(e) => err_class(&e),
         },
-        Op::MC(n) => match w {
-            Sheets::Xlsx(x) => match x.worksheet_merge_cells(n) {
-                None => "none".into(),
-                Some(Ok(v)) => format!("{v:?}"),
-                Some(Err(e)) => err_class(&e),
-            },
-            Sheets::Xls(x) => format!("{:?}", x.worksheet_merge_cells(n)),
-            _ => "unsupported".into(),
-        },
-        Op::LM => match w {
-            Sheets::Xlsx(x) => match x.load_merged_regions() {
-                Ok(()) => "unit".into(),
-                Err(e) => err_class(&e),
-            },
-            _ => "unit".into(),
-        },
-        Op::MR => match w {
-            Sheets::Xlsx(x) => format!("{:?}", x.merged_regions()),
-            _ => "unsupported".into(),
-        },
-        Op::MS(n) => match w {
-            Sheets::Xlsx(x) => format!("{:?}", x.merged_regions_by_sheet(n)),
-            _ => "unsupported".into(),
-        },
-        Op::LT => match w {
-            Sheets::Xlsx(x) => match x.load_tables() {
-                Ok(()) => "unit".into(),
-                Err(e) => err_class(&e),
-            },
-            _ => "unit".into(),
-        },
-        Op::TN => match w {
-            Sheets::Xlsx(x) => format!("{:?}", x.table_names()),
-            _ => "unsupported".into(),
-        },
-        Op::TB(n) => match w {
-            Sheets::Xlsx(x) => match x.table_by_name(n) {
-                Ok(t) => format!("{}|{}|{:?}|{}", t.name(), t.sheet_name(), t.columns(), dump_data(t.data())),
-                Err(e) => err_class(&e),
-            },
-            _ => "unsupported".into(),
-        },
         Op::V => match w.vba_project() {
             None => "none".into(),
             Some(Ok(v)) => format!("{:?}", v.get_module_names()),
@@ -206,6 +163,84 @@ fn perform(w: &mut AnyBook, op: &Op) -> String {
         },
         Op::SN => w.sheet_names().iter().map(|n| hex(n.as_bytes())).collect::<Vec<_>>().join(","),
         Op::MD => format!("{:?}", w.metadata()),
+        _ => return None,
+    })
+}
+
+/// perform one public call and canonicalise what it returned. `direct`: call the format's own reader inside
+/// the `Sheets` value instead of going through the wrapper's forwarding methods (used for the fresh readers, so
+/// that "a workbook opened through auto-detection returns the same results as the format's own reader" is checked)
+fn perform(w: &mut AnyBook, op: &Op, direct: bool) -> String {
+    let r = guarded(|| {
+        let c = if direct {
+            match w {
+                Sheets::Xls(x) => common(x, op),
+                Sheets::Xlsx(x) => common(x, op),
+                Sheets::Xlsb(x) => common(x, op),
+                Sheets::Ods(x) => common(x, op),
+            }
+        } else {
+            common(w, op)
+        };
+        if let Some(s) = c {
+            return s;
+        }
+        match op {
+            Op::RR(n) => match w {
+                Sheets::Xlsx(x) => match x.worksheet_range_ref(n) {
+                    Ok(r) => dump_data(&to_owned(&r)),
+                    Err(e) => err_class(&e),
+                },
+                Sheets::Xlsb(x) => match x.worksheet_range_ref(n) {
+                    Ok(r) => dump_data(&to_owned(&r)),
+                    Err(e) => err_class(&e),
+                },
+                _ => "unsupported".into(),
+            },
+            Op::MC(n) => match w {
+                Sheets::Xlsx(x) => match x.worksheet_merge_cells(n) {
+                    None => "none".into(),
+                    Some(Ok(v)) => format!("{v:?}"),
+                    Some(Err(e)) => err_class(&e),
+                },
+                Sheets::Xls(x) => format!("{:?}", x.worksheet_merge_cells(n)),
+                _ => "unsupported".into(),
+            },
+            Op::LM => match w {
+                Sheets::Xlsx(x) => match x.load_merged_regions() {
+                    Ok(()) => "unit".into(),
+                    Err(e) => err_class(&e),
+                },
+                _ => "unit".into(),
+            },
+            Op::MR => match w {
+                Sheets::Xlsx(x) => format!("{:?}", x.merged_regions()),
+                _ => "unsupported".into(),
+            },
+            Op::MS(n) => match w {
+                Sheets::Xlsx(x) => format!("{:?}", x.merged_regions_by_sheet(n)),
+                _ => "unsupported".into(),
+            },
+            Op::LT => match w {
+                Sheets::Xlsx(x) => match x.load_tables() {
+                    Ok(()) => "unit".into(),
+                    Err(e) => err_class(&e),
+                },
+                _ => "unit".into(),
+            },
+            Op::TN => match w {
+                Sheets::Xlsx(x) => format!("{:?}", x.table_names()),
+                _ => "unsupported".into(),
+            },
+            Op::TB(n) => match w {
+                Sheets::Xlsx(x) => match x.table_by_name(n) {
+                    Ok(t) => format!("{}|{}|{:?}|{}", t.name(), t.sheet_name(), t.columns(), dump_data(t.data())),
+                    Err(e) => err_class(&e),
+                },
+                _ => "unsupported".into(),
+            },
+            _ => unreachable!(),
+        }
     });
     match r {
         Ok(s) => s,
@@ -251,7 +286,7 @@ struct Case {
 
 fn gen_case(rng: &mut Rng, fmt: Fmt) -> Case {
     let gen_seed = rng.next();
-    let book = wb::gen_book(&mut Rng::new(gen_seed), fmt, 3, 25);
+    let book = wb::gen_book_rich(&mut Rng::new(gen_seed), fmt, 3, 25);
     let names: Vec<String> = book.sheets.iter().map(|s| s.name.clone()).collect();
     let rows: Vec<u32> = book.sheets.iter().flat_map(|s| s.cells.keys().map(|k| k.0)).collect();
     let mut pick_name = |rng: &mut Rng| -> String {
@@ -334,7 +369,7 @@ impl Case {
 fn run_case(case: &Case, drv: &mut Driver, rep: &mut Report) -> Vec<(String, String, String, String, String)> {
     let mut fails = vec![];
     let fmt = case.fmt;
-    let book = wb::gen_book(&mut Rng::new(case.gen_seed), fmt, 3, 25);
+    let book = wb::gen_book_rich(&mut Rng::new(case.gen_seed), fmt, 3, 25);
     let bytes = wb::write(&book, fmt, &mut Rng::new(case.seed));
     let mut live: AnyBook = if case.auto {
         match open_workbook_auto_from_rs(Cursor::new(bytes.clone())) {
@@ -379,7 +414,7 @@ fn run_case(case: &Case, drv: &mut Driver, rep: &mut Report) -> Vec<(String, Str
         let opname = op.wire().split(',').next().unwrap().to_string();
         rep.count(&format!("{}.{}", fmt.name(), opname));
         let sig = format!("{}:{}", fmt.name(), opname);
-        let got = perform(&mut live, op);
+        let got = perform(&mut live, op, false);
         // model: state in force + symbolic result
         let f: Vec<&str> = steps[i].splitn(4, ',').collect();
         let mh = if f[0] == "d" { None } else { Some(f[0].parse::<u32>().unwrap()) };
@@ -394,10 +429,16 @@ fn run_case(case: &Case, drv: &mut Driver, rep: &mut Report) -> Vec<(String, Str
         let want = if sym == "panic:not-loaded" && matches!(fr, Sheets::Xlsx(_)) {
             "panic".to_string()
         } else {
-            perform(&mut fr, op)
+            perform(&mut fr, op, true)
         };
         if got != want {
-            fails.push(("impl_vs_model".into(), sig.clone(), got.clone(), format!("{} => {}", steps[i], want), String::new()));
+            // the result differs from what a fresh reader gives in the state the model says is in force: the result
+            // depends on the call history — this IS the property (and breaks the correspondence with `read_pure`).
+            // One exception: worksheets() of the eager readers under an explicit header row, where the property
+            // demands nothing and only the model speaks.
+            let only_model = matches!(op, Op::W) && !fmt.lazy() && mh.is_some();
+            let kind = if only_model { "impl_vs_model" } else { "impl_vs_spec" };
+            fails.push((kind.into(), format!("{sig}:purity"), got.clone(), format!("{} => {}", steps[i], want), want.clone()));
         }
         // 2. path identities of the property, evaluated on fresh readers
         match op {
@@ -407,7 +448,7 @@ fn run_case(case: &Case, drv: &mut Driver, rep: &mut Report) -> Vec<(String, Str
                     fails.push(("impl_vs_spec".into(), format!("{}:unknown-sheet", fmt.name()), got.clone(), sym.into(), "an error".into()));
                 }
                 if known && fmt.lazy() {
-                    let via_ref = perform(&mut fresh(&bytes, fmt, mh, ml, mt), &Op::RR(n.clone()));
+                    let via_ref = perform(&mut fresh(&bytes, fmt, mh, ml, mt), &Op::RR(n.clone()), true);
                     if got != via_ref {
                         fails.push(("impl_vs_spec".into(), format!("{}:range-vs-ref", fmt.name()), got.clone(), sym.into(), via_ref));
                     }
@@ -415,7 +456,7 @@ fn run_case(case: &Case, drv: &mut Driver, rep: &mut Report) -> Vec<(String, Str
             }
             Op::RA(k) => {
                 let want = match names.get(*k) {
-                    Some(n) => perform(&mut fresh(&bytes, fmt, mh, ml, mt), &Op::R(n.clone())),
+                    Some(n) => perform(&mut fresh(&bytes, fmt, mh, ml, mt), &Op::R(n.clone()), true),
                     None => "none".into(),
                 };
                 if got != want {
@@ -427,7 +468,7 @@ fn run_case(case: &Case, drv: &mut Driver, rep: &mut Report) -> Vec<(String, Str
                 let wh = if fmt.lazy() { mh } else { None };
                 let mut entries: Vec<String> = names
                     .iter()
-                    .map(|n| format!("{}={}", hex(n.as_bytes()), perform(&mut fresh(&bytes, fmt, wh, ml, mt), &Op::R(n.clone()))))
+                    .map(|n| format!("{}={}", hex(n.as_bytes()), perform(&mut fresh(&bytes, fmt, wh, ml, mt), &Op::R(n.clone()), true)))
                     .collect();
                 entries.sort();
                 let want = entries.join("&");
